@@ -503,10 +503,61 @@ fn check_pixels(c: &PixCase, variant: &str, rep: &mut Report) {
             class: "pixel-misplaced".into(),
             tags: vec![format!("rot{}", c.r * 90)],
             detail: format!("{} pixels wrong after drawing {} pixels; first: {}", bad, drawn.len(), first.unwrap()),
-            case,
+            case: case.clone(),
         });
     } else if rep.samples.len() < 10 {
-        rep.sample(case);
+        rep.sample(case.clone());
+    }
+    // tri-colour aliases: the chromatic plane end to end (update_color_frame, or the two-plane update_frame)
+    if spec.alias_color == ColorKind::Tri {
+        let two = spec.full.iter().find(|f| f.plane2.is_some() && (f.k == K::UpdateColor || f.buf == BufSel::Whole));
+        if let Some(fe2) = two {
+            let (p2, enc2) = fe2.plane2.unwrap();
+            let op2 = if fe2.buf == BufSel::Whole { Op::img(fe2.k, Img::Bytes(Arc::new(d.buffer().to_vec()))) } else { Op::img2(fe2.k, Img::Bytes(Arc::new(d.bw().to_vec())), Img::Bytes(Arc::new(d.chr().to_vec()))) };
+            let mut rig2 = Rig::simple(spec);
+            let o2 = rig2.apply(&op2);
+            if !o2.is_ok() {
+                rep.fail(Failure { panel: spec.name.into(), entry: fe2.k.name().into(), class: "panic".into(), tags: vec!["pixel-path".into()], detail: o2.short(), case: case.clone() });
+                return;
+            }
+            let b2 = rig2.board.borrow();
+            let plc = &b2.chip().planes[p2];
+            // chromatic plane: bit set exactly for Chromatic pixels (inverted encodings flip it)
+            let code = |col: u32| -> u32 {
+                let base = (col == 2) as u32;
+                if enc2 == Enc::Inv {
+                    1 - base
+                } else {
+                    base
+                }
+            };
+            let (fgc2, bgc2) = (code(c.fg), code(c.bg));
+            let mut bad2 = 0u32;
+            let mut first2: Option<String> = None;
+            for py in 0..spec.h {
+                for px in 0..spec.w {
+                    let got = plane_pixel(spec, plc, Enc::Id, px, py);
+                    let want = if is_fg[(py * spec.w + px) as usize] { fgc2 } else { bgc2 };
+                    if got != want {
+                        bad2 += 1;
+                        if first2.is_none() {
+                            first2 = Some(format!("physical pixel ({},{}) of the chromatic plane holds {:b}, expected {:b}", px, py, got, want));
+                        }
+                    }
+                }
+            }
+            rep.count("pixels_verified", (spec.w * spec.h) as u64);
+            if bad2 > 0 {
+                rep.fail(Failure {
+                    panel: spec.name.into(),
+                    entry: format!("Display+{}", fe2.k.name()),
+                    class: "pixel-misplaced".into(),
+                    tags: vec![format!("rot{}", c.r * 90), "chromatic-plane".into()],
+                    detail: format!("{} pixels wrong in the chromatic plane after drawing {} pixels; first: {}", bad2, drawn.len(), first2.unwrap()),
+                    case,
+                });
+            }
+        }
     }
 }
 
@@ -581,5 +632,8 @@ pub fn run(ctx: &Ctx) -> Report {
     }
     let prep = par_run(&pcs, ctx.threads, |_, c, rep| check_pixels(c, &variant, rep));
     rep.merge(prep);
+    if ctx.variant == "v3" && ctx.only_panel.as_deref().map(|p| p == "epd12in48b_v2").unwrap_or(true) {
+        crate::props::p12checks::c01(&mut rep, ctx.tier_thorough);
+    }
     rep
 }
